@@ -68,10 +68,12 @@ func (t Templates) ServeHTTP(w http.ResponseWriter, r *http.Request) (int, error
 		rb := httpserver.NewResponseBuffer(buf, w, shouldBuf)
 
 		// pass request up the chain to let another middleware provide us the template
-		code, err := t.Next.ServeHTTP(rb, r)
-		if !rb.Buffered() || code >= 300 || err != nil {
-			return code, err
+		code, handlerErr := t.Next.ServeHTTP(rb, r)
+		if !rb.Buffered() || code >= 300 {
+			return code, handlerErr
 		}
+		// a handler that has written its response (it is in the buffer now) may
+		// still report an error for the log; the response must reach the client
 
 		// create a new template
 		templateName := filepath.Base(fpath)
@@ -121,7 +123,7 @@ func (t Templates) ServeHTTP(w http.ResponseWriter, r *http.Request) (int, error
 		// use the proper status code, since ServeContent hard-codes 2xx codes...
 		http.ServeContent(rb.StatusCodeWriter(w), r, templateName, modTime, bytes.NewReader(buf.Bytes()))
 
-		return 0, nil
+		return 0, handlerErr
 	}
 
 	return t.Next.ServeHTTP(w, r)
